@@ -48,6 +48,9 @@ pub struct EnvState {
     pub files_opened: std::collections::BTreeSet<String>,
     pub file_opens_total: u64,
     pub file_opens_denied: u64,
+    /// (environment epoch, mask) installed by the code under test through `umask`
+    pub umask_set: Option<(u64, u32)>,
+    pub cpu_ticks: u64,
 }
 
 pub type Env = Arc<Mutex<EnvState>>;
@@ -509,6 +512,339 @@ pub unsafe extern "C" fn sched_getaffinity(pid: c_int, size: usize, mask: *mut u
         }
     }
     0
+}
+
+/// Identity of the process and of its user (`std::process::id`, or `getuid`/`gethostname` called
+/// directly by a change that wants "my files" or a per-host default): for simulated caller threads
+/// a function of the environment epoch. In a real deployment all of these differ between the
+/// processes and machines that compile the same expression.
+fn sim_identity(tag: u64, what: &str, modulo: u64) -> Option<u64> {
+    let env = active();
+    if env.is_null() {
+        return None;
+    }
+    let mut st = unsafe { (*env).lock().unwrap_or_else(|e| e.into_inner()) };
+    st.env_reads_total += 1;
+    st.env_names.insert(format!("<{what}>"));
+    Some(crate::rng::mix(&[tag, st.env_seed, st.env_epoch]) % modulo)
+}
+
+#[no_mangle]
+pub unsafe extern "C" fn getpid() -> c_int {
+    match sim_identity(0xA1, "getpid", 4_000_000) {
+        Some(v) => 2 + v as c_int,
+        None => syscall(39) as c_int,
+    }
+}
+
+#[no_mangle]
+pub unsafe extern "C" fn getppid() -> c_int {
+    match sim_identity(0xA2, "getppid", 4_000_000) {
+        Some(v) => 1 + v as c_int,
+        None => syscall(110) as c_int,
+    }
+}
+
+#[no_mangle]
+pub unsafe extern "C" fn gettid() -> c_int {
+    match sim_identity(0xA9, "gettid", 4_000_000) {
+        Some(v) => 2 + v as c_int,
+        None => syscall(186) as c_int,
+    }
+}
+
+#[no_mangle]
+pub unsafe extern "C" fn getuid() -> c_uint {
+    match sim_identity(0xA3, "getuid", 3) {
+        Some(v) => [0u32, 1000, 60_001][v as usize],
+        None => syscall(102) as c_uint,
+    }
+}
+
+#[no_mangle]
+pub unsafe extern "C" fn geteuid() -> c_uint {
+    match sim_identity(0xA3, "geteuid", 3) {
+        Some(v) => [0u32, 1000, 60_001][v as usize],
+        None => syscall(107) as c_uint,
+    }
+}
+
+#[no_mangle]
+pub unsafe extern "C" fn getgid() -> c_uint {
+    match sim_identity(0xA4, "getgid", 3) {
+        Some(v) => [0u32, 100, 60_001][v as usize],
+        None => syscall(104) as c_uint,
+    }
+}
+
+#[no_mangle]
+pub unsafe extern "C" fn getegid() -> c_uint {
+    match sim_identity(0xA4, "getegid", 3) {
+        Some(v) => [0u32, 100, 60_001][v as usize],
+        None => syscall(108) as c_uint,
+    }
+}
+
+const SIM_HOSTS: [&str; 3] = ["mds01", "login-3.cluster.example", "n"];
+
+#[no_mangle]
+pub unsafe extern "C" fn gethostname(buf: *mut std::os::raw::c_char, len: usize) -> c_int {
+    if let Some(v) = sim_identity(0xA5, "gethostname", 3) {
+        let name = SIM_HOSTS[v as usize].as_bytes();
+        if buf.is_null() || len == 0 {
+            *__errno_location() = 22;
+            return -1;
+        }
+        let n = name.len().min(len - 1);
+        std::ptr::copy_nonoverlapping(name.as_ptr(), buf as *mut u8, n);
+        *(buf as *mut u8).add(n) = 0;
+        return 0;
+    }
+    // struct utsname: six fields of 65 bytes; nodename is the second
+    let mut uts = [0u8; 65 * 6];
+    let r = syscall(63, uts.as_mut_ptr());
+    if r < 0 || buf.is_null() || len == 0 {
+        *__errno_location() = 22;
+        return -1;
+    }
+    let node = &uts[65..130];
+    let n = node.iter().position(|b| *b == 0).unwrap_or(64).min(len - 1);
+    std::ptr::copy_nonoverlapping(node.as_ptr(), buf as *mut u8, n);
+    *(buf as *mut u8).add(n) = 0;
+    0
+}
+
+#[no_mangle]
+pub unsafe extern "C" fn uname(buf: *mut u8) -> c_int {
+    if buf.is_null() {
+        *__errno_location() = 14;
+        return -1;
+    }
+    let r = syscall(63, buf);
+    if r < 0 {
+        *__errno_location() = (-r) as c_int;
+        return -1;
+    }
+    if let Some(v) = sim_identity(0xA5, "uname", 3) {
+        let name = SIM_HOSTS[v as usize].as_bytes();
+        std::ptr::write_bytes(buf.add(65), 0, 65);
+        std::ptr::copy_nonoverlapping(name.as_ptr(), buf.add(65), name.len().min(64));
+    }
+    0
+}
+
+/// `readlink` / `readlinkat` (behind `std::fs::read_link` and `std::env::current_exe`): for
+/// simulated caller threads a link exists or not with the environment epoch, and where it exists
+/// its target is one of three places (a change might derive default file names from the program's
+/// own location).
+unsafe fn sim_readlink(path: *const std::os::raw::c_char, buf: *mut u8, size: usize) -> Option<isize> {
+    let (present, canon) = sim_path_query(path)?;
+    let always = canon.starts_with("/proc/");
+    if !present && !always {
+        *__errno_location() = ENOENT;
+        return Some(-1);
+    }
+    let v = sim_identity(0xA6 ^ crate::rng::hash_str(&canon), "readlink", 3)?;
+    let target = ["/usr/bin/lipe_find3", "/sim/home/user/bin/lfind", "/opt/ddn/lipe/bin/lipe_find3"][v as usize].as_bytes();
+    let n = target.len().min(size);
+    if !buf.is_null() {
+        std::ptr::copy_nonoverlapping(target.as_ptr(), buf, n);
+    }
+    Some(n as isize)
+}
+
+#[no_mangle]
+pub unsafe extern "C" fn readlink(path: *const std::os::raw::c_char, buf: *mut u8, size: usize) -> isize {
+    if let Some(r) = sim_readlink(path, buf, size) {
+        return r;
+    }
+    let r = syscall(89, path, buf, size as c_long);
+    if r < 0 {
+        *__errno_location() = (-r) as c_int;
+        return -1;
+    }
+    r as isize
+}
+
+#[no_mangle]
+pub unsafe extern "C" fn readlinkat(dirfd: c_int, path: *const std::os::raw::c_char, buf: *mut u8, size: usize) -> isize {
+    if let Some(r) = sim_readlink(path, buf, size) {
+        return r;
+    }
+    let r = syscall(267, dirfd as c_long, path, buf, size as c_long);
+    if r < 0 {
+        *__errno_location() = (-r) as c_int;
+        return -1;
+    }
+    r as isize
+}
+
+/// Wall clock through the older entry points (`time`, `gettimeofday`), which glibc serves from the
+/// vDSO without passing through `clock_gettime`: same simulated clock, same bookkeeping.
+unsafe fn sim_wall_read() -> Option<u64> {
+    let env = active();
+    if env.is_null() {
+        return None;
+    }
+    let mut st = (*env).lock().unwrap_or_else(|e| e.into_inner());
+    if let Some(delta) = st.script.pop_front() {
+        if delta > 0 {
+            st.in_call_ticks += 1;
+        } else if delta < 0 {
+            st.in_call_back_steps += 1;
+        }
+        st.shift(delta);
+    }
+    st.wall_reads_total += 1;
+    let v = st.now;
+    st.served.push(v);
+    Some(v)
+}
+
+#[no_mangle]
+pub unsafe extern "C" fn time(out: *mut i64) -> i64 {
+    let v = match sim_wall_read() {
+        Some(v) => v as i64,
+        None => {
+            let mut ts = Timespec { tv_sec: 0, tv_nsec: 0 };
+            syscall(SYS_CLOCK_GETTIME, 0 as c_long, &mut ts as *mut Timespec);
+            ts.tv_sec
+        }
+    };
+    if !out.is_null() {
+        *out = v;
+    }
+    v
+}
+
+#[no_mangle]
+pub unsafe extern "C" fn gettimeofday(tv: *mut i64, _tz: *mut c_void) -> c_int {
+    if tv.is_null() {
+        return 0;
+    }
+    match sim_wall_read() {
+        Some(v) => {
+            *tv = v as i64;
+            *tv.add(1) = 0;
+        }
+        None => {
+            let mut ts = Timespec { tv_sec: 0, tv_nsec: 0 };
+            syscall(SYS_CLOCK_GETTIME, 0 as c_long, &mut ts as *mut Timespec);
+            *tv = ts.tv_sec;
+            *tv.add(1) = (ts.tv_nsec / 1000) as i64;
+        }
+    }
+    0
+}
+
+/// The file-mode creation mask. `umask(new)` returns the previous mask and installs the new one;
+/// for simulated caller threads the mask lives in the simulated environment (a function of the
+/// environment epoch until the code under test sets it), and the real process mask is untouched.
+#[no_mangle]
+pub unsafe extern "C" fn umask(new: c_uint) -> c_uint {
+    let env = active();
+    if !env.is_null() {
+        let mut st = (*env).lock().unwrap_or_else(|e| e.into_inner());
+        st.env_reads_total += 1;
+        st.env_names.insert("<umask>".into());
+        let epoch_mask = [0o022u32, 0o000, 0o077, 0o027, 0o002][(crate::rng::mix(&[0xA7u64, st.env_seed, st.env_epoch]) % 5) as usize];
+        let old = match st.umask_set {
+            Some((epoch, m)) if epoch == st.env_epoch => m,
+            _ => epoch_mask,
+        };
+        let epoch = st.env_epoch;
+        st.umask_set = Some((epoch, new & 0o777));
+        return old;
+    }
+    syscall(95, new as c_long) as c_uint
+}
+
+/// `sysconf`: the processor counts (`_SC_NPROCESSORS_CONF` 83, `_SC_NPROCESSORS_ONLN` 84) follow
+/// the simulated CPU set; every other name is answered by libc.
+#[no_mangle]
+pub unsafe extern "C" fn sysconf(name: c_int) -> c_long {
+    extern "C" {
+        fn dlsym(handle: *mut c_void, symbol: *const std::os::raw::c_char) -> *mut c_void;
+    }
+    if name == 83 || name == 84 {
+        if let Some(v) = sim_identity(0xC9, "sysconf nprocessors", 16) {
+            return 1 + v as c_long;
+        }
+    }
+    static REAL: std::sync::atomic::AtomicUsize = std::sync::atomic::AtomicUsize::new(0);
+    let mut f = REAL.load(std::sync::atomic::Ordering::Relaxed);
+    if f == 0 {
+        // RTLD_NEXT
+        f = dlsym(-1isize as *mut c_void, b"sysconf\0".as_ptr() as *const std::os::raw::c_char) as usize;
+        REAL.store(f, std::sync::atomic::Ordering::Relaxed);
+    }
+    if f == 0 {
+        *__errno_location() = 22;
+        return -1;
+    }
+    let real: unsafe extern "C" fn(c_int) -> c_long = std::mem::transmute(f);
+    real(name)
+}
+
+/// Resource usage (`getrusage`, `times`, `clock`): CPU time consumed is no function of the input;
+/// simulated caller threads see a counter that advances with every question.
+unsafe fn sim_cpu_ticks() -> Option<u64> {
+    let env = active();
+    if env.is_null() {
+        return None;
+    }
+    let mut st = (*env).lock().unwrap_or_else(|e| e.into_inner());
+    st.env_reads_total += 1;
+    st.env_names.insert("<cpu time>".into());
+    st.cpu_ticks += 1 + crate::rng::mix(&[0xAB, st.env_seed, st.env_epoch, st.cpu_ticks]) % 977;
+    Some(st.cpu_ticks)
+}
+
+#[no_mangle]
+pub unsafe extern "C" fn getrusage(who: c_int, usage: *mut u8) -> c_int {
+    if usage.is_null() {
+        *__errno_location() = 14;
+        return -1;
+    }
+    if let Some(t) = sim_cpu_ticks() {
+        // struct rusage: ru_utime (sec, usec), ru_stime (sec, usec), then 14 longs
+        std::ptr::write_bytes(usage, 0, 144);
+        *(usage as *mut i64) = (t / 1000) as i64;
+        *(usage.add(8) as *mut i64) = ((t % 1000) * 1000) as i64;
+        *(usage.add(32) as *mut i64) = 4096 + (t % 512) as i64; // ru_maxrss
+        return 0;
+    }
+    let r = syscall(98, who as c_long, usage);
+    if r < 0 {
+        *__errno_location() = (-r) as c_int;
+        return -1;
+    }
+    0
+}
+
+#[no_mangle]
+pub unsafe extern "C" fn times(buf: *mut c_long) -> c_long {
+    if let Some(t) = sim_cpu_ticks() {
+        if !buf.is_null() {
+            *buf = t as c_long;
+            *buf.add(1) = 0;
+            *buf.add(2) = 0;
+            *buf.add(3) = 0;
+        }
+        return 1_000_000 + t as c_long;
+    }
+    syscall(100, buf)
+}
+
+#[no_mangle]
+pub unsafe extern "C" fn clock() -> c_long {
+    if let Some(t) = sim_cpu_ticks() {
+        return (t * 1000) as c_long;
+    }
+    let mut ts = Timespec { tv_sec: 0, tv_nsec: 0 };
+    // CLOCK_PROCESS_CPUTIME_ID
+    syscall(SYS_CLOCK_GETTIME, 2 as c_long, &mut ts as *mut Timespec);
+    (ts.tv_sec * 1_000_000 + ts.tv_nsec as i64 / 1000) as c_long
 }
 
 /// Self-test used by `fpsim selfcheck`: both seams must be live in this binary.
